@@ -668,3 +668,27 @@ for _k, _v in _ADDED6.items():
     DOC[_k]['level'] += ' ' + _v
     DOC[_k]['technique'] += '; replay of TLC-generated behaviours of the abstract model (transition cover + simulation) on the real code'
 DOC['C20']['technique'] += '; TLC refinement check of a slice-heap model (VariantHeapImplMC)'
+
+# coverage added after the seventh round of seeded changes and the allowed-behaviour changes (DESIGN 11.9)
+_ADDED7 = {
+    'C01': 'The recorder makes the k-th application report an error (with or without a value next to it): the evaluation stops there and fails. Integer literals are written with redundant leading zeros in one of two renderings of a tree (two-digit constants).',
+    'C02': 'Integer constants with a redundant leading zero, Keyword-typed tokens whose spelling is no keyword, every ordered pair of operator forms (multi-token forms included) in a chain through ParseTokens and ParseString.',
+    'C03': 'Token lists of every small shape (empty, white space only, braces without names ...) handed to the expression and the mustache parser through ParseTokens and SetOriginalTokens.',
+    'C04': 'A stream handed over after the caller has read part of it (TokenizeStream / TokenizeStreamToStrings); white space beyond ASCII enabled in a whitespace state; registered symbols typed Quoted.',
+    'C05': 'Option setters called again with unchanged values between a has-next query and the fetch; exponent markers without digits before well-formed exponents on one instance; a reused mustache parser.',
+    'C06': 'Host values that are uncomparable only through a component (a struct with a slice field, an array of slices); with a text as first operand the second operand\'s text is the manager\'s own conversion; a floating-point NaN / infinity / 2^63-and-beyond that has to become an integer may be an error.',
+    'C07': 'A floating-point NaN / infinity / 2^63-and-beyond converted to an integer type may be an error (the host defines no value).',
+    'C08': 'Contains against the host\'s byte-wise substring test (texts that are not well-formed UTF-8); E / Pi / Rnd in either floating-point type, "a fixed result type" checked as such (state variable rt); the function table created before the host zone is set.',
+    'C09': 'The row-separator property set before the other setters; separators and quote symbols handed over as two views into one array and in one slice that is changed and handed over again.',
+    'C10': 'Names with hyphens; values that are not well-formed UTF-8 rendered byte for byte; the same text set a second time gets the same verdict; the escape of the solidus is optional (JSON).',
+    'C11': 'Lines of more than 2^16 columns (readmany: n reads as one step).',
+    'C14': 'Quote characters from both halves of Latin-1, the rest of the BMP and a supplementary plane for all three states.',
+    'C15': 'Registered symbols typed Quoted (a quote token begins with one of the tokenizer\'s quote characters); a token the quote state read may carry its decoded value whatever type the state gave it.',
+    'C16': 'Symbols given as bytes that are not well-formed UTF-8.',
+    'C17': 'Ranges above, at and across U+FFFE registered in every order of two and sampled three (map, word class, tokenizer); target tokmid: the character states are changed while one reader stays attached.',
+    'C18': 'Every third names case starts from an empty default collection; names reported by a parser that parsed something else before (and was cleared every other time); names made of other names joined by a separator, names that differ only in non-letters, missing variables named like default functions.',
+    'C19': 'A result overwritten in place by its caller shows in no later evaluation (scrib); results that are the caller\'s own values (date-times in another zone, array elements); every one-argument function over a Double variable; function names in other letter cases with the default table in the digest.',
+    'C20': 'A variant set to the very list it handed out; arrays shortened by SetLength, then copied, both growing (a length below the current one is left open: unchanged or cut); the two zeros set over each other with the typed setters; array elements holding uncomparable host values in the equality matrix.',
+}
+for _k, _v in _ADDED7.items():
+    DOC[_k]['level'] += ' ' + _v
